@@ -182,7 +182,12 @@ def costOrder (docs : List ADoc) (d : ADoc) (f : Nat) (terms : List (Nat × Byte
 /-- does the phrase scorer built for this segment match document `d`? -/
 def implPhrase (scoring : Bool) (docs : List ADoc) (f : Nat) (terms : List (Nat × Bytes)) (slop : Nat)
     (d : ADoc) : Bool :=
-  if slop = 0 then semPhrase d f terms slop
+  if slop = 0 then
+    -- real phrases have ≥ 2 terms: the sorted-merge intersections in processing order
+    (if decide (2 ≤ terms.length) && terms.all (fun (_, t) => hasTerm d f t) then
+      (if scoring then PhraseSlop.exactOn (costOrder docs d f terms)
+       else PhraseSlop.exactOff (costOrder docs d f terms))
+     else semPhrase d f terms slop)
   else if terms.all (fun (_, t) => hasTerm d f t) then
     (if scoring then PhraseSlop.phraseOn (costOrder docs d f terms) slop
      else PhraseSlop.phraseOff (costOrder docs d f terms) slop)
